@@ -23,7 +23,104 @@ from .formcheck import REL_STRICT, STRICT_OPTS, compare_values, full_env, geomet
 from .kir import BudgetExceeded
 from .poly import CPoly, Ctx, KsymError, Poly
 
-EXPRS: dict[str, dict] = {}
+class _Reg(dict):
+    def __missing__(self, name):
+        if name.startswith("randexpr:"):
+            return dict(name=name, build=lambda n=name: random_expression(n), tags={"rand"})
+        raise KeyError(name)
+
+
+EXPRS: dict[str, dict] = _Reg()
+
+
+def random_expression(name):
+    """Grammar-generated expression + points, deterministic in (seed, index)."""
+    import random
+
+    _, seed, i = name.split(":")
+    r = random.Random(int(seed) * 999983 + int(i) * 104729 + 5)
+    cell = r.choice(["triangle", "triangle", "quadrilateral", "tetrahedron", "interval"])
+    gd = {"interval": 1, "triangle": 2, "quadrilateral": 2, "tetrahedron": 3}[cell]
+    m = mesh(cell, gdeg=2 if (cell == "triangle" and r.random() < 0.15) else 1)
+    quad = cell == "quadrilateral"
+    def sp():
+        fam, deg = r.choice([("Q" if quad else "Lagrange", 1), ("DQ" if quad else "DG", 1), ("DQ" if quad else "DG", 0)] + ([("Lagrange", 2)] if not quad and cell != "tetrahedron" else []))
+        shape = (gd,) if (gd > 1 and deg >= 1 and r.random() < 0.3) else None
+        return space(m, fam, deg, shape=shape)
+    coefs = [ufl.Coefficient(sp()) for _ in range(r.randint(1, 3))]
+    consts = [ufl.Constant(m, shape=r.choice([(), (gd,), (2, 2), (2, 2, 2)])) for _ in range(r.randint(0, 2))]
+    facet = gd > 1 and r.random() < 0.3
+    x = ufl.SpatialCoordinate(m)
+    n = ufl.FacetNormal(m) if facet else None
+    rank1 = r.random() < 0.35
+    u = ufl.TrialFunction(space(m, "Q" if quad else "Lagrange", r.choice([1, 2]) if not quad and cell != "tetrahedron" else 1)) if rank1 else None
+
+    def atom():
+        k = r.choice(["coef", "coef", "dcoef", "x", "lit"] + (["const"] if consts else []) + (["n"] if n is not None else []))
+        if k == "coef":
+            f = r.choice(coefs)
+            return f[r.randrange(gd)] if f.ufl_shape else f
+        if k == "dcoef":
+            f = r.choice(coefs)
+            if f.ufl_function_space().ufl_element().embedded_superdegree == 0:
+                return f[0] if f.ufl_shape else f
+            g = ufl.grad(f)
+            return g[tuple(r.randrange(s_) for s_ in g.ufl_shape)]
+        if k == "x":
+            return x[r.randrange(gd)]
+        if k == "const":
+            c = r.choice(consts)
+            return c[tuple(r.randrange(s_) for s_ in c.ufl_shape)] if c.ufl_shape else c
+        if k == "n":
+            return n[r.randrange(gd)]
+        return ufl.as_ufl(r.choice([0.5, -2.0, 3.0]))
+
+    def scal(d):
+        if d == 0 or r.random() < 0.35:
+            return atom()
+        op = r.choice(["add", "mul", "mul", "sub", "abs", "pow", "cond", "sqrt"])
+        a = scal(d - 1)
+        if op == "add":
+            return a + scal(d - 1)
+        if op == "mul":
+            return a * scal(d - 1)
+        if op == "sub":
+            return a - scal(d - 1)
+        if op == "abs":
+            return abs(a)
+        if op == "pow":
+            return a ** r.choice([2, 3])
+        if op == "sqrt":
+            return ufl.sqrt(a * a + 1.0)
+        return ufl.conditional(ufl.lt(a, atom()), scal(d - 1), 2.0)
+
+    def comp():
+        sc = scal(r.randint(0, 2))
+        if rank1:
+            up = ufl.grad(u)[r.randrange(gd)] if r.random() < 0.4 else u
+            return sc * up
+        return sc
+
+    shape = r.choice([(), (), (2,), (gd,), (2, 2)])
+    if shape == ():
+        e = comp()
+    elif len(shape) == 1:
+        e = ufl.as_vector([comp() for _ in range(shape[0])])
+    else:
+        e = ufl.as_tensor([[comp() for _ in range(shape[1])] for _ in range(shape[0])])
+    npts = r.randint(1, 3)
+    edim = gd - 1 if facet else gd
+    pts = []
+    for _ in range(npts):
+        if cell in ("quadrilateral", "interval") or (facet and edim == 1):
+            pts.append([round(r.uniform(0.05, 0.95), 3) for _ in range(edim)])
+        else:
+            p = [r.uniform(0.05, 0.9) for _ in range(edim)]
+            tot = sum(p)
+            if tot > 0.9:
+                p = [v * 0.85 / tot for v in p]
+            pts.append([round(v, 3) for v in p])
+    return e, np.array(pts)
 
 
 def ereg(name, tags=""):
@@ -293,7 +390,10 @@ def _expr(name, spec, res):
     cm = scalar.startswith("complex")
     expr, pts, c, m, ename, ed, kern = setup_expression(name, scalar)
     low = lower_expression(expr, cm)
-    dom = max(ufl.domain.extract_domains(expr), key=lambda d: d.topological_dimension)
+    doms = ufl.domain.extract_domains(expr)
+    if not doms:
+        raise uflref.OracleUnsupported("expression without a domain (literals only)")
+    dom = max(doms, key=lambda d: d.topological_dimension)
     cellname = dom.ufl_cell().cellname
     cel = dom.ufl_coordinate_element()
     gdim = cel.reference_value_shape[0]
